@@ -32,7 +32,7 @@ def e_insert(rng, text, lang, protect_top=0):
         while k < len(inserts) and inserts[k] == i:
             kind = rng.random()
             ind = re.match(r"\s*", ln).group(0)
-            out.append("" if kind < 0.4 else "%s%s note %d" % (ind if lang == "py" else ind, CM[lang], rng.randint(100, 999)))
+            out.append("" if kind < 0.25 else ind if kind < 0.4 else "%s%s note %d" % (ind, CM[lang], rng.randint(100, 999)))
             shift_at.append(i)
             k += 1
         out.append(ln)
@@ -42,9 +42,10 @@ def e_insert(rng, text, lang, protect_top=0):
 def e_trailing_ws(rng, text, lang, protect_top=0):
     lines = text.split("\n")
     for i in rng.sample(range(len(lines)), min(len(lines), rng.randint(1, 8))):
-        if lines[i].strip() and not lines[i].rstrip().endswith("\\"):
+        if not lines[i].rstrip().endswith("\\") and i < len(lines) - 1:
+            # blank lines become whitespace-only lines (just as meaning-preserving as trailing blanks after code)
             body, cr = (lines[i][:-1], "\r") if lines[i].endswith("\r") else (lines[i], "")
-            lines[i] = body + rng.choice([" ", "  ", "\t", " \t "]) + cr
+            lines[i] = body + rng.choice([" ", "  ", "\t", " \t ", "    "]) + cr
     return "\n".join(lines), (lambda l: l), {"columns": True}
 
 
